@@ -234,7 +234,9 @@ def validate_trace(module, trace_path, tag=None, timeout=900, stack_mb=256, heap
         with open(cur, "w") as f:
             f.writelines(lines[k - 1] for k in idx)
     else:
-        raise InfraError("trace validation of %s: more than 12 lines cannot be evaluated" % module)
+        # a dozen records the relation cannot be evaluated on: they are reported, the rest of this trace is not judged
+        log("trace validation of %s: more than 12 lines cannot be evaluated; the remaining lines are not judged" % module)
+        return r, [{"viol": k, "clauses": ["RecordOutsideSpecDomain"]} for k in outside], n
     if r.distinct != len(idx) + 1:
         log(r.out[-4000:])
         raise InfraError("trace spec %s consumed %d of %d lines" % (module, r.distinct - 1, len(idx)))
